@@ -3,7 +3,7 @@
    of Subjects/Subject.v; tied to reactivex/subject/asyncsubject.py by the K1
    correspondence of harness/props/C23.py.  Specification: Subjects/Family.v. *)
 From RxVerif Require Import Base.Prelude Ops.Machine Subjects.Subject Subjects.Async Subjects.Family
-  Subjects.SubjectFacts Subjects.FamilyFacts.
+  Subjects.SubjectFacts Subjects.FamilyFacts Subjects.AsyncEndFacts Subjects.AsyncTreeFacts.
 
 (* Refinement: on EVERY history of top-level calls the AsyncSubject's complete
    log is the log of the specification in which on_next reaches nobody, completion
@@ -56,7 +56,102 @@ Theorem C23_greeting_after_end :
 Proof. exact (fun A => greet_ended KAsync). Qed.
 Print Assumptions C23_greeting_after_end.
 
+(* ---- end to end, on the machine itself (histories of top-level calls) ----
+   [last_value h] is the value of the last on_next call in h (None if there is
+   none); [final_of h] = [Next v; Done] if last_value h = Some v, else [Done].
+   An observer that subscribes (for the first time) after the calls pre1, is
+   not unsubscribed during pre2, where pre1 and pre2 contain no
+   on_error/on_completed/dispose, receives from the REAL machine, when
+   on_completed is then called, exactly the value of the last on_next call of
+   pre1++pre2 followed by completion (completion alone if there was none) -- and
+   nothing else, whatever calls follow; the run terminates. *)
+Theorem C23_end_to_end :
+  forall (A : Type) (pynone v0 : A) (o : nat) (pre1 pre2 post : list (@op A)),
+    no_end (pre1 ++ pre2) -> no_sub o pre1 -> no_unsub o pre2 ->
+    exists fuel0, forall fuel, (fuel0 <= fuel)%nat ->
+      snd (run_history (async_cls pynone) v0 fuel (pre1 ++ OSub o :: pre2 ++ ODone :: post, [])) = true /\
+      view o (fst (run_history (async_cls pynone) v0 fuel (pre1 ++ OSub o :: pre2 ++ ODone :: post, []))) =
+      final_of (pre1 ++ pre2).
+Proof. exact (@async_end_to_end). Qed.
+Print Assumptions C23_end_to_end.
+
+(* the same when on_error(e) is called instead: exactly the error *)
+Theorem C23_end_to_end_error :
+  forall (A : Type) (pynone v0 : A) (o : nat) (pre1 pre2 : list (@op A)) (e : Z) (post : list (@op A)),
+    no_end (pre1 ++ pre2) -> no_sub o pre1 -> no_unsub o pre2 ->
+    exists fuel0, forall fuel, (fuel0 <= fuel)%nat ->
+      snd (run_history (async_cls pynone) v0 fuel (pre1 ++ OSub o :: pre2 ++ OErr e :: post, [])) = true /\
+      view o (fst (run_history (async_cls pynone) v0 fuel (pre1 ++ OSub o :: pre2 ++ OErr e :: post, []))) =
+      [Err e].
+Proof. exact (@async_end_to_end_error). Qed.
+Print Assumptions C23_end_to_end_error.
+
+(* an observer that subscribes (for the first time) after on_completed -- the
+   subject not being disposed in between -- receives the last on_next value
+   before the completion followed by completion, immediately and nothing else *)
+Theorem C23_late_subscriber_end_to_end :
+  forall (A : Type) (pynone v0 : A) (o : nat) (pre1 pre2 post : list (@op A)),
+    no_end pre1 -> no_dispose pre2 -> no_sub o (pre1 ++ ODone :: pre2) ->
+    exists fuel0, forall fuel, (fuel0 <= fuel)%nat ->
+      snd (run_history (async_cls pynone) v0 fuel ((pre1 ++ ODone :: pre2) ++ OSub o :: post, [])) = true /\
+      view o (fst (run_history (async_cls pynone) v0 fuel ((pre1 ++ ODone :: pre2) ++ OSub o :: post, []))) =
+      final_of pre1.
+Proof. exact (@async_late_subscriber). Qed.
+Print Assumptions C23_late_subscriber_end_to_end.
+
+Theorem C23_late_subscriber_error_end_to_end :
+  forall (A : Type) (pynone v0 : A) (o : nat) (pre1 : list (@op A)) (e : Z) (pre2 post : list (@op A)),
+    no_end pre1 -> no_dispose pre2 -> no_sub o (pre1 ++ OErr e :: pre2) ->
+    exists fuel0, forall fuel, (fuel0 <= fuel)%nat ->
+      snd (run_history (async_cls pynone) v0 fuel ((pre1 ++ OErr e :: pre2) ++ OSub o :: post, [])) = true /\
+      view o (fst (run_history (async_cls pynone) v0 fuel ((pre1 ++ OErr e :: pre2) ++ OSub o :: post, []))) =
+      [Err e].
+Proof. exact (@async_late_subscriber_error). Qed.
+Print Assumptions C23_late_subscriber_error_end_to_end.
+
+(* the hypotheses of the end-to-end theorems are satisfiable by a non-trivial
+   history (another subscriber, values before and after the subscription, an
+   unsubscription of someone else), and the promised sequence is not empty *)
+Example C23_witness_end_to_end_hyp :
+  no_end ([OSub 1%nat; ONext 4] ++ [ONext 0; OUnsub 1%nat; ONext 2]) /\
+  no_sub 0%nat [OSub 1%nat; ONext 4] /\ no_unsub 0%nat [ONext 0; OUnsub 1%nat; ONext 2] /\
+  final_of ([OSub 1%nat; ONext 4] ++ [ONext 0; OUnsub 1%nat; ONext 2]) = [Next 2; Done] /\
+  final_of [OSub 1%nat] = [@Done Z].
+Proof.
+  repeat split; try reflexivity; intros p H; cbn in H;
+    repeat (destruct H as [<-|H]; [first [exact I|discriminate]|]); destruct H.
+Qed.
+
+Example C23_witness_late_hyp :
+  no_end [OSub 1%nat; ONext 4; ONext 2] /\ no_dispose [ONext 7; OErr 11; ODone] /\
+  no_sub 0%nat ([OSub 1%nat; ONext 4; ONext 2] ++ ODone :: [ONext 7; OErr 11; ODone]) /\
+  final_of [OSub 1%nat; ONext 4; ONext 2] = [Next 2; Done].
+Proof.
+  repeat split; try reflexivity; intros p H; cbn in H;
+    repeat (destruct H as [<-|H]; [first [exact I|discriminate]|]); destruct H.
+Qed.
+
 (* ---- arbitrary call trees ---- *)
+(* NOTHING BEFORE TERMINATION, on every call tree (observers that subscribe, unsubscribe, emit,
+   complete or dispose from inside their callbacks) and every fuel: while the subject's is_stopped
+   flag is false (it is set by on_error, on_completed and dispose) no observer has received
+   anything *)
+Theorem C23_tree_nothing_before_termination :
+  forall (A : Type) (pynone : A) (react : nat -> nat -> list (@op A)) (v0 : A) (top : list (@op A)) (fuel o : nat),
+    let c := run (async_cls pynone) react fuel (init_cfg v0 top) in
+    is_stopped (c_st c) = false -> view o (log_of c) = [].
+Proof. exact (@async_tree_nothing_before_termination). Qed.
+Print Assumptions C23_tree_nothing_before_termination.
+
+(* the same in terms of the calls alone: as long as the log contains no on_error / on_completed /
+   dispose call -- made by the driver or from inside ANY callback -- nobody has received anything *)
+Theorem C23_tree_silent_until_an_end_call :
+  forall (A : Type) (pynone : A) (react : nat -> nat -> list (@op A)) (v0 : A) (top : list (@op A)) (fuel o : nat),
+    let c := run (async_cls pynone) react fuel (init_cfg v0 top) in
+    forallb no_end_event (log_of c) = true -> view o (log_of c) = [].
+Proof. exact (@async_tree_silent_until_an_end_call). Qed.
+Print Assumptions C23_tree_silent_until_an_end_call.
+
 Theorem C23_views_wellformed :
   forall (A : Type) (pynone : A) (react : nat -> nat -> list (@op A)) (v0 : A) (top : list (@op A)) (fuel o : nat),
     wellformed (view o (log_of (run (async_cls pynone) react fuel (init_cfg v0 top)))) = true.
@@ -134,3 +229,10 @@ Proof. vm_compute. reflexivity. Qed.
 
 Example C23_witness_hyp : no_end [OSub 0%nat; ONext 1; OUnsub 0%nat] /\ live (g_init 0) = true.
 Proof. split; [intros p [<-|[<-|[<-|[]]]]; exact I|reflexivity]. Qed.
+
+(* the hypothesis of the tree-level silence theorems holds on a run with subscriptions, values and
+   an unsubscription (and the subject is still live) *)
+Example C23_witness_tree_silent_hyp :
+  let c := run (async_cls 0) (react_tbl []) 100 (init_cfg 0 [OSub 0%nat; ONext 4; OSub 1%nat; OUnsub 0%nat; ONext 5]) in
+  forallb no_end_event (log_of c) = true /\ is_stopped (c_st c) = false /\ c_k c = [].
+Proof. vm_compute. repeat split. Qed.
